@@ -456,6 +456,8 @@ def bounded(rep, tier):
 
 
 def check(rep, tier):
+    from vlib import statecensus
+    statecensus.obligations(rep, 'C09', 'planner')
     rep.dropped = 'method bodies read with ast.parse; property decorator of PlanStep.result handled by name'
     rep.assume('Lemma: discipline + add_step contract => every top-level Result(k) is embedded in a step at a position > k',
                'census is by attribute name (no alias analysis): any `.steps` / `.step_num` store anywhere in mindsdb_sql counts')
